@@ -34,6 +34,14 @@ def FLOORS(tier):
             f["type:" + t] = 60 if q else 2000
     return f
 
+_FLOORS_BEFORE_ROUND9 = FLOORS
+
+
+def FLOORS(tier):      # noqa: F811 -- floors of the input classes added in round 9 (a quarter of what seed 0 observes in the quick tier)
+    f = _FLOORS_BEFORE_ROUND9(tier)
+    f.update({'second-solve-after-in-place-edit:change-coefficient': 152, 'second-solve-after-in-place-edit:negate': 153, 'second-solve-after-in-place-edit:record-constraint': 7, 'second-solve-checks': 312})
+    return f
+
 
 L_TYPES = {"bool": ["QUBO", "PUBO", "PCBO", "QUBOMatrix", "PUBOMatrix"],
            "spin": ["QUSO", "PUSO", "PCSO", "QUSOMatrix", "PUSOMatrix"]}
